@@ -96,22 +96,12 @@ Theorem C03_F6_pinned_refuted :
 Proof. exact F6_pinned_refuted. Qed.
 Print Assumptions C03_F6_pinned_refuted.
 
-(** Execute rejects exactly the requests with an encoded slash under `off`; otherwise
-    the captures are the decoded segments under the wildcard names, unnamed
-    wildcards ("*") not exposed *)
-Theorem C03_captures_exact : forall fx7 sl q names segs caps rej,
-  req_guard_F7 fx7 sl q = false ->
-  execute fx7 sl q (map_of (named_pairs names segs)) = (caps, rej) ->
-  rej = spec_rejected sl q /\
-  (rej = false -> forall sc, spec_captures sl names segs = Some sc ->
-     caps_guard_F7 fx7 sl (named_pairs names segs) = false ->
-     caps_guard_F8 fx7 sl (named_pairs names segs) = false -> caps = sc).
-Proof. exact captures_exact. Qed.
-Print Assumptions C03_captures_exact.
-
-Theorem C03_unnamed_not_exposed : forall names segs k v,
-  In (k, v) (named_pairs names segs) -> k <> "*".
-Proof. exact unnamed_not_exposed. Qed.
+(** unnamed wildcards are not exposed by a lookup *)
+Theorem C03_unnamed_not_exposed : forall fx1 fx4 fx6 fx7 eng ds es t q r caps rej cs,
+  load true fx4 ds = Loaded es t ->
+  serve fx1 true true fx6 fx7 eng es t q = (ORule r caps rej, cs) ->
+  forall k v, In (k, v) caps -> k <> "*".
+Proof. exact lookup_unnamed_not_exposed. Qed.
 Print Assumptions C03_unnamed_not_exposed.
 
 (** the pinned tree (before a779db8) accepted a lower-case encoded slash under `off` and
@@ -136,16 +126,16 @@ Proof. exact F8_refuted. Qed.
 Print Assumptions C03_F8_pinned_refuted.
 
 (** the lookup tree hands the matcher of a route the wildcard names that route declares and the
-    segments its wildcards match (free wildcard included) — at every matcher call of every
-    lookup, for all rule sets loaded by [Add] (any number of rules and routes, any insertion
-    order, prefix splitting included), all engines and all requests.  [call_sees_route]: for
-    the route [s] the call is made for, if its expression matches the request path with the
-    segments [segs] then [k_keys k = declared_names (sr_tokens s)] and [k_vals k = segs]. *)
+    segments its wildcards match (free wildcard included), and it asks only routes whose
+    expression matches the request path as documented — at every matcher call of every lookup,
+    for all rule sets loaded by [Add] (any number of rules and routes, any insertion order,
+    prefix splitting and escapes included), all engines and all requests *)
 Theorem C03_matcher_sees_route_keys : forall fx1 fx4 fx6 fx7 eng ds es t q,
   load true fx4 ds = Loaded es t ->
   forall k, In k (snd (serve fx1 true true fx6 fx7 eng es t q)) ->
-    call_sees_route (flat_routes 0 ds) q k.
-Proof. exact matcher_sees_route_keys. Qed.
+  exists s, nth_error (flat_routes 0 ds) (k_vid k) = Some s /\
+    sr_segs s q = Some (k_vals k) /\ k_keys k = declared_names (sr_tokens s).
+Proof. exact matcher_sees_route_keys_strong. Qed.
 Print Assumptions C03_matcher_sees_route_keys.
 
 (** end to end: every matcher call made for a route whose expression matches the request path
@@ -180,17 +170,33 @@ Theorem C03_lookup_no_panic : forall fx1 fx4 fx6 fx7 eng ds es t q,
 Proof. exact lookup_no_panic. Qed.
 Print Assumptions C03_lookup_no_panic.
 
-(** the entry returned belongs to a route of the rule set, and if that route's expression
-    matches the request path with the segments [segs], the captures are what Execute makes of
-    exactly the named segments (then [C03_captures_exact] applies) *)
-Theorem C03_lookup_entry : forall fx1 fx4 fx6 fx7 eng ds es t q r caps rej cs,
+(** the rule a lookup selects: one of its routes has an expression that matches the request path as
+    documented, that route's matcher was asked and said yes, and the captures are what Execute makes
+    of exactly the named segments *)
+Theorem C03_lookup_selected : forall fx1 fx4 fx6 fx7 eng ds es t q r caps rej cs,
   load true fx4 ds = Loaded es t ->
   serve fx1 true true fx6 fx7 eng es t q = (ORule r caps rej, cs) ->
-  exists v s, nth_error (flat_routes 0 ds) v = Some s /\ sr_rule s = r /\
-    forall segs, sr_segs s q = Some segs ->
-      execute fx7 (rl_slash (sr_def s)) q (map_of (named_pairs (declared_names (sr_tokens s)) segs)) = (caps, rej).
-Proof. exact lookup_entry. Qed.
-Print Assumptions C03_lookup_entry.
+  exists v s segs k, nth_error (flat_routes 0 ds) v = Some s /\ sr_rule s = r /\ sr_segs s q = Some segs /\
+    In k cs /\ k_vid k = v /\ k_res k = MYes /\
+    execute fx7 (rl_slash (sr_def s)) q (map_of (named_pairs (declared_names (sr_tokens s)) segs)) = (caps, rej).
+Proof. exact lookup_selected. Qed.
+Print Assumptions C03_lookup_selected.
+
+(** THE STATEMENT end to end, for the tree as it is now (every finding repaired) and every request
+    view with a validly encoded RawPath: a rule is selected only through a route whose expression
+    matches the path and for which scheme, method, any-host and every path_params expression hold;
+    the request is refused exactly for an encoded slash under `off`; otherwise the values exposed are
+    exactly the decoded matched segments under the wildcard names *)
+Theorem C03_selected_only_if_documented : forall eng ds es t q r caps rej cs,
+  load true true ds = Loaded es t ->
+  String.eqb (q_rawpath q) "" = false -> valid_enc (q_rawpath q) ->
+  serve true true true true D8 eng es t q = (ORule r caps rej, cs) ->
+  exists v s segs, nth_error (flat_routes 0 ds) v = Some s /\ sr_rule s = r /\ sr_segs s q = Some segs /\
+    spec_route_ok eng (sr_def s) (rt_params (sr_route s)) q (declared_names (sr_tokens s)) segs = true /\
+    rej = spec_rejected (rl_slash (sr_def s)) q /\
+    (rej = false -> exists sc, spec_captures (rl_slash (sr_def s)) (declared_names (sr_tokens s)) segs = Some sc /\ caps = sc).
+Proof. exact lookup_selected_now. Qed.
+Print Assumptions C03_selected_only_if_documented.
 
 (** the tree-side findings, on loaded rule sets *)
 Theorem C03_F2_pinned_refuted :
@@ -233,15 +239,16 @@ Theorem C03_F5_pinned_panic_refuted :
 Proof. exact F5_pinned_panic_refuted. Qed.
 Print Assumptions C03_F5_pinned_panic_refuted.
 
-(** the hypotheses of [C03_route_matches_iff] are satisfiable by a rule using every
-    kind of condition, and the matcher then says yes *)
+(** the hypotheses of [C03_route_matches_iff] are satisfiable, for the variant the check runs (all
+    repairs), by a rule using every kind of condition, and the matcher then says yes *)
 Theorem C03_nonvacuous :
   exists r cm q keys vals,
-    only_matcher false r = Some cm /\ length keys = length vals /\ Forall valid_enc vals /\
+    only_matcher true r = Some cm /\ length keys = length vals /\ Forall valid_enc vals /\
     Forall (from_path q) vals /\
-    guard_F1 false eng_none (rl_hosts r) q = false /\ guard_F4 false (rl_methods r) = false /\
+    guard_F1 true eng_none (rl_hosts r) q = false /\ guard_F4 true (rl_methods r) = false /\
     on_params (guard_F6 true) (rl_slash r) q keys vals (cm_params cm) = false /\
+    on_params (guard_F7 D8) (rl_slash r) q keys vals (cm_params cm) = false /\
     on_params (guard_F8 D8) (rl_slash r) q keys vals (cm_params cm) = false /\
-    route_matches false true D8 eng_none cm q keys vals = MYes.
-Proof. exact route_semantics_nonvacuous. Qed.
+    route_matches true true D8 eng_none cm q keys vals = MYes.
+Proof. exact route_semantics_nonvacuous_live. Qed.
 Print Assumptions C03_nonvacuous.
